@@ -47,7 +47,10 @@ B == 4    \* base of the two length digits: rsaLen = hi * B + lo
 MaxTamper == IF Tier = "quick" THEN 1 ELSE IF Tier = "thorough" THEN 2 ELSE 3
 EmitOn == Tier # "deep"
 
-TextClasses == {"empty", "one", "ascii", "multibyte", "ctl", "mixed"}
+\* the class matters to the model only through the number of ciphertext cells;
+\* the deep run therefore keeps one class per size
+TextClasses == IF Tier = "deep" THEN {"empty", "one", "ascii"}
+               ELSE {"empty", "one", "ascii", "multibyte", "ctl", "mixed"}
 CtCells(tc) == IF tc = "empty" THEN 0 ELSE IF tc = "one" THEN 1 ELSE 2
 
 \* v: 0 = as produced, 1 = corrupted, 2 = appended junk; for "len" cells the digit
